@@ -178,3 +178,25 @@ package interp
 //@   exec-ensures [path:l>3;local:sl] one-append-of-all-the-values: rvIface(destOf(n, f)) == rvIface(rvAppendSpreadOp(value(f), sl)) && len(sl) == l
 //@   exec-loop 1
 //@   step value-i-gathered-at-position-i: sl[i] == v(f) && forall(k, 0, len(sl), k != i ==> sl[k] == old(sl[k]))
+
+// make: the destination receives a new slice (length and capacity from the operands, the capacity being
+// the length when only one is given), channel (buffer size from the operand, 0 without one) or map
+// (size hint from the operand) of the frame type of the type operand.  reflect's Make* are uninterpreted.
+//@ func _make(n)
+//@   props C04
+//@   opt gen = true
+//@   opt safety = off
+//@   opt opaque-calls = *
+//@   opt opaque-havoc = none
+//@   ints wrap
+//@   exec (f) (ret)
+//@   exec-ensures continues: ret == next
+//@   exec-ensures [path:Slice;path:3] slice-of-length-and-equal-capacity: rvIface(destOf(n, f)) == rvIface(rvMakeSliceOp(typ, vInt(operandOf(n.child[2], f)), vInt(operandOf(n.child[2], f))))
+//@   exec-ensures [path:Slice;path:4] slice-of-length-and-capacity: rvIface(destOf(n, f)) == rvIface(rvMakeSliceOp(typ, vInt(operandOf(n.child[2], f)), vInt(operandOf(n.child[3], f))))
+//@   exec-ensures [path:Array;path:3] array-of-length-and-equal-capacity: rvIface(destOf(n, f)) == rvIface(rvMakeSliceOp(typ, vInt(operandOf(n.child[2], f)), vInt(operandOf(n.child[2], f))))
+//@   exec-ensures [path:Array;path:4] array-of-length-and-capacity: rvIface(destOf(n, f)) == rvIface(rvMakeSliceOp(typ, vInt(operandOf(n.child[2], f)), vInt(operandOf(n.child[3], f))))
+//@   exec-ensures [path:Chan;path:2] unbuffered-channel: rvIface(destOf(n, f)) == rvIface(rvMakeChanOp(typ, 0))
+//@   exec-ensures [path:Chan;path:3] buffered-channel: rvIface(destOf(n, f)) == rvIface(rvMakeChanOp(typ, vInt(operandOf(n.child[2], f))))
+//@   exec-ensures [path:Map;path:2] map: rvIface(destOf(n, f)) == rvIface(rvMakeMap1Op(typ))
+//@   exec-ensures [path:Map;path:3] map-with-size-hint: rvIface(destOf(n, f)) == rvIface(rvMakeMapOp(typ, vInt(operandOf(n.child[2], f))))
+//@   exec-canary [path:Slice;path:4] swapped: rvIface(destOf(n, f)) == rvIface(rvMakeSliceOp(typ, vInt(operandOf(n.child[3], f)), vInt(operandOf(n.child[2], f))))
